@@ -78,12 +78,12 @@ package apptest
 //@   site fmt.Errorf.5 assert !t.OutputPanic && t.Output != "" && expect != got && err == nil
 //@   site wazero.BuildModule.2 assert t.OutputPanic && (hp(got, "panic: "+expect) || firstError != nil)
 //   the package is reported ok only when no failure was recorded
-//@   site fmt.Printf.16 assert firstError == nil && !fail_line
+//@   site fmt.Printf.18 assert firstError == nil && !fail_line
 //   a test or example that fails by an unexpected error ends the run with the FAIL line and a failure status
 //@   site os.Exit.6 assert fail_line
 //@   site os.Exit.9 assert fail_line
 //@   site os.Exit.10 assert fail_line
 //   and FAIL is printed (followed by exit status 1) only when one was
-//@   site fmt.Printf.15 assert firstError != nil
+//@   site fmt.Printf.17 assert firstError != nil
 //@   noframe
 //@   property C30
